@@ -181,6 +181,7 @@ func registerC02() {
 			"component destinations are not compared when a source is on the wire (C18)",
 		},
 		MinNontrivial: 200,
+		Families386:   []string{"model"},
 		Families: []lib.Family{
 			{Name: "model", N: func(t string) uint64 { return tierN(t, 160000, 3000000) }, Run: c02Model},
 			{Name: "device", N: func(t string) uint64 { return uint64(len(Corpus())) }, Run: c02Device},
